@@ -638,6 +638,7 @@ func (t *Term) String() string {
 type printer struct {
 	shared map[int]bool // term ids that are printed by name (tN)
 	limit  int          // >0: stop descending once this many characters have been written (debug output)
+	hit    bool         // the limit was reached (the text is incomplete)
 }
 
 // StringN prints at most about n characters of the term (terms are DAGs: the full text can be exponentially long).
@@ -650,6 +651,7 @@ func (t *Term) StringN(n int) string {
 
 func (p *printer) write(sb *strings.Builder, t *Term) {
 	if p.limit > 0 && sb.Len() > p.limit {
+		p.hit = true
 		sb.WriteString("…")
 		return
 	}
@@ -775,7 +777,8 @@ type Script struct {
 }
 
 func NewScript() *Script {
-	return &Script{declared: map[string]bool{}, defined: map[int]bool{}, p: &printer{shared: map[int]bool{}}, bmemo: map[int]bool{}}
+	// a single assertion or definition longer than 48 MB is not sent to a solver: the query counts as undecided
+	return &Script{declared: map[string]bool{}, defined: map[int]bool{}, p: &printer{shared: map[int]bool{}, limit: 48 << 20}, bmemo: map[int]bool{}}
 }
 
 func (s *Script) Raw(line string) { s.sb.WriteString(line); s.sb.WriteByte('\n') }
@@ -858,7 +861,13 @@ func (s *Script) TermString(t *Term) string {
 	return sb.String()
 }
 
-func (s *Script) String() string { return s.sb.String() }
+func (s *Script) String() string {
+	if s.p.hit || s.sb.Len() > 400<<20 {
+		// a term too large to print: the solvers answer "unknown" at once
+		return "(echo \"unknown\")\n"
+	}
+	return s.sb.String()
+}
 
 func sortedKeys[V any](m map[string]V) []string {
 	var ks []string
